@@ -9,7 +9,7 @@ use serde_json::{json, Value};
 
 fn knobs(rng: &mut Rng, lkm: bool) -> Knobs {
     // trigger several syntactic checks at once
-    Knobs { n_funcs: 2 + rng.below(3) as usize, max_blocks: 6 + rng.below(6) as usize, must_call: c21::TRIGGERS.to_vec(), lkm }
+    Knobs { n_funcs: 2 + rng.below(3) as usize, max_blocks: 6 + rng.below(6) as usize, must_call: c21::TRIGGERS.to_vec(), lkm, lost_roots: false }
 }
 
 /// Re-execute one case from its reset event (which carries the inputs of every invocation).
